@@ -227,6 +227,58 @@ def r3(chk, prog):
     chk.check(not bad and bool(sets), 'R3', f.name, 'printing the help marks the usage as printed', f.loc())
 
 
+def r4_one_settings_object(chk, prog):
+    """'visible under the CURRENT settings': the usage settings (print hidden / deprecated, short-only / long-only)
+    live in one UsageParams object per handler family; the arguments that change them at run time write into that
+    object and the description printer (Handler::mDescription, an ArgumentDesc holding its own shared pointer)
+    reads from it.  So (a) a sub-group handler takes the very object of its main handler (no private copy), and (b)
+    whoever replaces Handler::mpUsageParams also hands the new object to mDescription - otherwise settings and
+    printer are two objects and a requested display is ignored"""
+    hs = [f for f in prog.functions if f.classq == 'celma::prog_args::Handler']
+    # (a) constructors that take another handler
+    n = 0
+    for f in hs:
+        if not f.d.get('ctor') or not f.params or 'Handler &' not in (f.params[0]['t'] or '').replace('&', ' &').replace('  ', ' '):
+            continue
+        main = f.params[0]['name']
+        for i in f.inits:
+            if i.get('name') != 'mpUsageParams' or not isinstance(i.get('init'), dict):
+                continue
+            n += 1
+            init = i['init']
+            from_main = any(x.get('k') == 'MemberExpr' and x.get('ref', {}).get('name') == 'mpUsageParams' and
+                            mentions_var(x, main) for x in walk(init))
+            fresh = any(x.get('k') == 'CXXNewExpr' or (x.get('k') in CALL_KINDS and 'make_shared' in (x.get('callee') or ''))
+                        for x in walk(init))
+            chk.check(from_main and not fresh, 'R4', f.name, 'a sub-group handler shares the usage settings object of '
+                      'its main handler', f.loc(init), 'the settings are %s: a display requested on the main handler '
+                      'at run time does not reach the usage of the sub-group' % (
+                          'copied into a new object' if fresh else 'not taken from the main handler'))
+    chk.require(n >= 1, 'constructor Handler( Handler& main, ...) with an initialiser for mpUsageParams not found')
+    # (b) replacing the settings object of a handler
+    m = 0
+    for f in hs:
+        if f.d.get('ctor') or f.body is None:
+            continue
+        for x in f.walk():
+            is_assign = (x.get('k') == 'BinaryOperator' and x.get('op') == '=' and
+                         field_name(children(x)[0]) == 'mpUsageParams') or \
+                        (x.get('k') == 'CXXOperatorCallExpr' and x.get('op') == '=' and call_args(x) and
+                         field_name(x['c'][1] if len(x.get('c', [])) > 1 else {}) == 'mpUsageParams')
+            if not is_assign:
+                continue
+            m += 1
+            told = [c for c in f.calls() if field_name(object_of(c)) == 'mDescription'] + \
+                   [y for y in f.walk() if y.get('k') in ('BinaryOperator', 'CXXOperatorCallExpr') and y.get('op') == '='
+                    and y is not x and any(z.get('k') == 'MemberExpr' and z.get('ref', {}).get('name') == 'mDescription'
+                                           for z in walk(y))]
+            chk.check(bool(told), 'R4', f.name, 'replacing the usage settings object of a handler also re-targets its '
+                      'description printer (mDescription)', f.loc(x), 'mDescription keeps its own shared pointer to the '
+                      'previous UsageParams object: settings made through the new object (e.g. --print-hidden defined '
+                      'after the handler joined a group) are ignored when this handler prints its usage')
+    return n + m
+
+
 def run(chk):
     prog, units = rules.prog_args_program()
     chk.units = units
@@ -241,6 +293,8 @@ def run(chk):
     chk.rule('R1', 'visibility predicate equals the specification', 2)
     chk.rule('R2', 'two complementary passes; every visible argument listed exactly once', 10)
     chk.rule('R3', 'single-argument help', 4)
+    chk.rule('R4', 'settings and description printer of a handler family use one UsageParams object', 2)
     r1(chk, prog)
     r2(chk, prog)
     r3(chk, prog)
+    r4_one_settings_object(chk, prog)
